@@ -1,6 +1,9 @@
-import PyYetiVerif.Model.Rainflow
 import PyYetiVerif.Model.RainflowEntry
-/-! Line protocol for C05.
+import PyYetiVerif.Generated.PyRain
+import PyYetiVerif.Generated.RainflowWrap
+/-! Line protocol for C05, generated programs (kept apart from Drivers/C05.lean so that a source
+change that makes the regenerated embedding ill-typed cannot take the hand-written model's streams
+down with it).
 request : `rf  v0 v1 …`  (integers)  → tidy model, rainflow with offsets
           `rf1 v0 v1 …`              → tidy model, variant without offsets
           `ge <g> <shape…> | <bits…>`      → GENERATED `py_rain.rainflow` at Float (IEEE doubles given
@@ -57,29 +60,18 @@ def fmtOut : Except PyErr (Out Float) → String
   | .ok (.frames c rf oc os) =>
       "frames " ++ ",".intercalate c ++ "|" ++ fmtRows rf ++ "|" ++ ",".intercalate oc ++ "|" ++ fmtOs os
 
+def genEntry (nd : Nd Float) (g : Bool) : Except PyErr (PyResult Float) :=
+  PyYetiVerif.Generated.PyRain.rainflow nd.data.length nd g
+
 def answer (line : String) : String :=
   match (line.splitOn " ").filter (· ≠ "") with
-  | "rf" :: ws => match parseInts ws with
-      | some xs => match rainflowApi xs with
-          | some t => ";".intercalate (t.map fmtCyc)
-          | none => "value-error"
-      | none => "bad-op"
-  | "rf1" :: ws => match parseInts ws with
-      | some xs => match rainflow1Api xs with
-          | some t => ";".intercalate (t.map
-              fun (r, s, f) => s!"{r} {s} {if f then 1 else 0}")
-          | none => "value-error"
-      | none => "bad-op"
-  | "me" :: i :: g :: sf :: ws =>
-      match (if i = "c" then some Impl.c_rain else if i = "py" then some Impl.py_rain else none),
-          parseOpt g, parseOpt sf, parseNd ws with
-      | some i, some g, some (some sf), some nd => fmtOut (implEntry i { nd with safe := sf } g)
-      | _, _, _, _ => "bad-op"
-  | "mw" :: a :: g :: up :: sf :: ws =>
-      match parseOpt a, parseOpt g, parseOpt up, parseOpt sf, parseNd ws with
-      | some (some a), some g, some up, some (some sf), some nd =>
-          fmtOut (wrapper (fun i => if i = Impl.c_rain then a else true) { nd with safe := sf } g up)
-      | _, _, _, _, _ => "bad-op"
+  | "ge" :: g :: ws => match parseOpt g, parseNd ws with
+      | some (some g), some nd => fmtOut (observe (genEntry nd g))
+      | _, _ => "bad-op"
+  | "gw" :: g :: up :: ws => match parseOpt g, parseOpt up, parseNd ws with
+      | some (some g), some (some up), some nd =>
+          fmtOut (observeW (PyYetiVerif.Generated.RainflowWrap.rainflow genEntry nd g up))
+      | _, _, _ => "bad-op"
   | _ => "bad-op"
 
 partial def loop (h : IO.FS.Stream) (out : IO.FS.Stream) : IO Unit := do
